@@ -16,3 +16,41 @@ pub(crate) fn wire_types(rng: &mut impl Rng) -> Vec<WireType> {
         ],
     )]
 }
+
+// ---------------------------------------------------------------------------------------------
+// Validator network connection admission.
+use std::sync::Arc;
+
+use zksync_concurrency::{ctx, net};
+
+use super::Network;
+use crate::{gossip::verif::VGossip, metrics::MeteredStream, preface};
+
+#[derive(Clone)]
+pub struct VConsensus(Arc<Network>);
+
+impl VConsensus {
+    /// `consensus::Network::new` (None if the node is not a validator).
+    pub fn new(gossip: &VGossip) -> Result<Option<Self>, String> {
+        Network::new(gossip.0.clone()).map(|x| x.map(Self)).map_err(|e| format!("{e:#}"))
+    }
+    pub fn inbound_keys(&self) -> Vec<validator::PublicKey> {
+        self.0.inbound.current().keys().cloned().collect()
+    }
+    pub fn outbound_keys(&self) -> Vec<validator::PublicKey> {
+        self.0.outbound.current().keys().cloned().collect()
+    }
+    /// Accepts one TCP connection on the validator endpoint: `preface::accept`, `run_inbound_stream`.
+    pub async fn accept_one(&self, ctx: &ctx::Ctx, listener: &mut net::tcp::Listener) -> Result<(), String> {
+        let stream = MeteredStream::accept(ctx, listener).await.map_err(|e| format!("accept: {e:#}"))?;
+        let (stream, endpoint) = preface::accept(ctx, stream).await.map_err(|e| format!("preface: {e:#}"))?;
+        if endpoint != preface::Endpoint::ConsensusNet {
+            return Err("wrong endpoint".into());
+        }
+        self.0.run_inbound_stream(ctx, stream).await.map_err(|e| format!("{e:#}"))
+    }
+    /// `run_outbound_stream`: dials `addr` expecting validator `peer`.
+    pub async fn dial(&self, ctx: &ctx::Ctx, peer: &validator::PublicKey, addr: std::net::SocketAddr) -> Result<(), String> {
+        self.0.run_outbound_stream(ctx, peer, addr).await.map_err(|e| format!("{e:#}"))
+    }
+}
